@@ -106,7 +106,7 @@ Lemma sci_stable raw :
 Proof.
   cbv zeta. unfold spec_comment_inline. fold cfc. rewrite (cfc_eq raw).
   destruct (starts (s "/*") raw).
-  { destruct (starts (s "/**") raw); unfold mk_inline, comment_rebuild; cbn [ck ctxt cinline].
+  { destruct (starts (s "/**") raw); unfold mk_inline, comment_rebuild; cbn [ck ctxt cinline]; change (sp 0) with (@nil ascii); cbn [app].
     - rewrite doc_reread. cbn [ck ctxt]. rewrite strip_pad. fin3.
     - rewrite block_reread. cbn [ck ctxt]. rewrite strip_pad. fin3. }
   destruct (starts (s "#!") raw).
